@@ -10,7 +10,7 @@ Oracle: specs/seq/IniStore.tla (store `lines` shaped after ini_line_t + ghost or
   3. direction (ii): long seeded random histories run on the real store (ASan build and a plain -O2 build whose
      realloc may extend in place), logged as ndjson and validated by TLC against Trace_IniStore.
 Python only renders inputs, shuttles JSON and compares JSON values for equality."""
-import json, os, random
+import json, os, random, threading
 from rig import common
 
 SRC = ["/verif/harness/ini_drv.c", "src/utils/ini.c", "src/utils/buf_str.c"]
@@ -37,7 +37,7 @@ def spec_part(ctx):
     runs += [("MC_IniStore.cfg", False, 600)] if ctx.quick else \
             [("MC_IniStore_wide.cfg", False, 1500), ("MC_IniStore_deep.cfg", False, 2400)]
     for cfg, cov, to in runs:
-        r = common.tlc("MC_IniStore", cfg=cfg, workers=4, coverage=cov, timeout=to, xss=XSS, seed=ctx.seed)
+        r = common.tlc("MC_IniStore", cfg=cfg, workers=3, coverage=cov, timeout=to, xss=XSS, seed=ctx.seed)
         ctx.tlc_stats(r, "MC_IniStore/" + cfg)
         ctx.log("TLC %s: %d distinct states, %d transitions, depth %d, %.0fs" % (cfg, r.distinct, r.generated, r.depth, r.wall))
         if r.rc != 0:
@@ -173,7 +173,7 @@ def beh_part(ctx, exe):
     if ctx.quick:
         cs = beh_run(ctx, exe, "Beh_IniStore.cfg", "all histories <= 2 ops")
         beh_run(ctx, exe, "Beh_IniStore_text.cfg", "every text <= 4 bytes")
-        beh_run(ctx, exe, "Beh_IniStore_sim.cfg", "random walks", simulate=110, depth=10)
+        beh_run(ctx, exe, "Beh_IniStore_sim.cfg", "random walks", simulate=45, depth=10)
     else:
         cs = beh_run(ctx, exe, "Beh_IniStore_d3.cfg", "all histories <= 3 ops", timeout=1500)
         beh_run(ctx, exe, "Beh_IniStore_text5.cfg", "every text <= 5 bytes", timeout=1500)
@@ -183,21 +183,29 @@ def beh_part(ctx, exe):
 
 
 # ------------------------------------------------------------------ 3. random histories, validated by TLC
-SECTS = [b"Main", b"main", b"MAIN", b"net", b"Net", b"s2", b"x" * 40, b"A.b c", b"Z"]
+SECTS = [b"Main", b"main", b"MAIN", b"M", b"net", b"Net", b"s2", b"s", b"x" * 40, b"A.b c", b"Z"]
 NAMES = [b"key", b"Key", b"KEY", b"k", b"K", b"n", b"long_name_" * 4, b"a b", b"port", b"Port"]
 
 
-def rnd_value(rng, big):
-    c = rng.random()
-    if c < 0.15: return b""
-    if c < 0.45: n = rng.randint(1, 4)
-    elif c < 0.8: n = rng.randint(5, 40)
-    else: n = rng.randint(41, 300 if big else 90)
+def rnd_bytes(rng, n):
     alpha = b"abcXYZ019 =[];#\t.-_" + bytes([0xC3, 0xA9, 0xFF])
     return bytes(rng.choice(alpha) for _ in range(n))
 
 
-def rnd_text(rng, maxlines):
+def rnd_value(rng, big, last=None):
+    """a value; `last` = length this key was given before (input bookkeeping only): replacements then grow or
+    shrink by small and large steps around it, which is what decides in-place update vs realloc in ini_val_set"""
+    c = rng.random()
+    if last is not None and c < 0.55:
+        n = max(0, last + rng.choice([1, 1, 2, 3, 5, 8, 13, 15, 16, 17, 18, 33, -1, -2, -5, -16, -17, -last, 0]))
+    elif c < 0.65: n = 0
+    elif c < 0.8: n = rng.randint(1, 4)
+    elif c < 0.93: n = rng.randint(5, 40)
+    else: n = rng.randint(41, 300 if big else 90)
+    return rnd_bytes(rng, n)
+
+
+def rnd_text(rng, maxlines, sects, names):
     out = b""
     nl = rng.randint(1, maxlines)
     for i in range(nl):
@@ -205,8 +213,8 @@ def rnd_text(rng, maxlines):
         if k < 0.15: ln = b""
         elif k < 0.25: ln = rng.choice([b";comment", b"#c", b";"])
         elif k < 0.35: ln = rng.choice([b"junk", b"[nosect", b" ", b"\r", b"a\rb", b"]"])
-        elif k < 0.55: ln = b"[" + rng.choice(SECTS) + b"]" + rng.choice([b"", b"", b"", b" ; tail", b"]"])
-        else: ln = rng.choice(NAMES + [b"", b" sp"]) + b"=" + rnd_value(rng, False)
+        elif k < 0.55: ln = b"[" + rng.choice(sects) + b"]" + rng.choice([b"", b"", b"", b" ; tail", b"]"])
+        else: ln = rng.choice(names + [b"", b" sp"]) + b"=" + rnd_value(rng, False)
         eol = rng.choice([b"\n", b"\n", b"\r\n", b"\r\n", b"\r\r\n"])
         if i == nl - 1 and rng.random() < 0.3: eol = b""
         out += ln + eol
@@ -214,35 +222,47 @@ def rnd_text(rng, maxlines):
 
 
 def rnd_script(rng, nops, big):
+    # few keys per execution, so that the same entry is replaced many times
+    sects = rng.sample(SECTS, rng.choice([1, 2, 3, 4]))
+    names = rng.sample(NAMES, rng.choice([2, 3, 4]))
+    if rng.random() < 0.5:          # make sure letter-case variants of one name / section meet
+        names = list({*names, *rng.sample([b"key", b"Key", b"KEY"], 2)})
+        sects = list({*sects, *rng.sample([b"Main", b"main", b"MAIN", b"M"], 2)})
+    lastlen = {}
     ops = []
     if big:
-        ops += ["P " + rnd_text(rng, 45).hex() for _ in range(4)]
+        ops += ["P " + rnd_text(rng, 45, sects, names).hex() for _ in range(4)]
     for i in range(nops):
         c = rng.random()
-        s, n = rng.choice(SECTS), rng.choice(NAMES)
-        if c < 0.30:
-            ops.append("%s %s %s %s" % (rng.choice(["S", "S", "S", "Sz"]), s.hex(), n.hex(), rnd_value(rng, big).hex() or "-"))
-        elif c < 0.34:
+        s, n = rng.choice(sects), rng.choice(names)
+        if c < 0.32:
+            v = rnd_value(rng, big, lastlen.get((s, n)))
+            lastlen[(s, n)] = len(v)
+            ops.append("%s %s %s %s" % (rng.choice(["S", "S", "S", "Sz"]), s.hex(), n.hex(), v.hex() or "-"))
+        elif c < 0.36:
             v = rng.choice([0, 1, 9, 10, 11, 99, 100, 101, 999999999, 1000000000, 1000000001, 10 ** 18, 2 ** 31, 2 ** 63 - 1,
                             rng.randrange(0, 2 ** 63)])
             if rng.random() < 0.5: ops.append("SU %s %s %d" % (s.hex(), n.hex(), rng.choice([v, 2 ** 64 - 1, 10 ** 19])))
             else: ops.append("SI %s %s %d" % (s.hex(), n.hex(), v * rng.choice([1, -1])))
+            lastlen.pop((s, n), None)
         elif c < 0.44:
-            ops.append("P " + (rnd_text(rng, 40 if big else 5).hex() or "-"))
-        elif c < 0.62:
+            ops.append("P " + (rnd_text(rng, 40 if big else 5, sects, names).hex() or "-"))
+        elif c < 0.60:
             ops.append("%s %s %s" % (rng.choice(["G", "G", "Gz"]), s.hex(), n.hex()))
-        elif c < 0.74:
+        elif c < 0.72:
             ops.append("%s %s %s" % (rng.choice(["GI", "GI", "GIz"]), s.hex(), n.hex()))
-        elif c < 0.78:
+        elif c < 0.76:
             ops.append("%s %s %s" % (rng.choice(["GN", "GU", "GIN", "GIU"]), s.hex(), n.hex()))
-        elif c < (0.82 if big else 0.86):
+        elif c < (0.80 if big else 0.84):
             ops.append("E")
-        elif c < 0.88:
+        elif c < 0.87:
             ops.append("C")
+        elif c < 0.89:
+            ops.append("RT")
         else:
             ops.append(rng.choice(["N r -1", "N r 0", "N r 1", "N a 0", "N a 1", "N r -2", "N r -%d" % rng.randint(1, 60),
                                    "N a %d" % rng.randint(2, 200)]))
-    ops += ["E", "C", "N r 0", "N r -1"]
+    ops += ["E", "C", "RT", "N r 0", "N r -1"]
     return ";".join(ops)
 
 
@@ -276,7 +296,7 @@ def trace_part(ctx, exes):
                     f.write(json.dumps(e, separators=(",", ":")) + "\n"); nline += 1
                 seg_info.append((bname, i, first, nline))
                 total_ev += len(evs)
-    r = common.tlc("Trace_IniStore", workers=4, env={"TRACE": path}, timeout=1500, xss=XSS, xmx="6g")
+    r = common.tlc("Trace_IniStore", workers=2, env={"TRACE": path}, timeout=1500, xss=XSS, xmx="6g")
     if r.rc != 0:
         raise common.Infra("Trace_IniStore: TLC rc=%s %s\n%s" % (r.rc, r.violation, r.out[-3000:]))
     printed = common.tlc_printed_json(r.out)
@@ -318,9 +338,22 @@ def run(ctx):
     d = common.scratch()
     asan = common.cc(SRC, d + "/ini_asan", compiler="clang", san="asan", hooks=False)
     plain = common.cc(SRC, d + "/ini_plain", compiler="gcc", opt="-O2", hooks=False)
-    spec_part(ctx)
-    beh_part(ctx, asan)
-    trace_part(ctx, [("clang-asan-ubsan", asan), ("gcc-O2", plain)])
+    # the model-checking runs (3 workers) go on beside the replay/trace runs (1-2 workers): <= 4-5 cores in total
+    common.tlc_workspace()
+    err = []
+    def bg():
+        try:
+            spec_part(ctx)
+        except BaseException as e:      # re-raised in the main thread
+            err.append(e)
+    th = threading.Thread(target=bg); th.start()
+    try:
+        beh_part(ctx, asan)
+        trace_part(ctx, [("clang-asan-ubsan", asan), ("gcc-O2", plain)])
+    finally:
+        th.join()
+    if err:
+        raise err[0]
     ctx.cov["failure_occurrences_by_key"] = dict(_seen)
     ctx.cov["rule"] = ("model checking: every Parse/Set history over stores bounded by the cfg constants; replay: one real execution "
                        "per emitted behaviour (every history up to the depth, every byte string up to the length, random walks), "
